@@ -57,19 +57,26 @@ def evalVal (cfg : Cfg) : Val → List Char
   | .truncDecimal => pyStrInt cfg.stickyTtl
   | .echoNames => join commaSpace cfg.stickyEcho
 
-/-- `d[k] = v` on an insertion-ordered dict -/
-def setHeader (hs : Headers) (k v : List Char) : Headers :=
-  if hs.any (fun p => p.1 == k) then hs.map (fun p => if p.1 == k then (k, v) else p) else hs ++ [(k, v)]
+/-- `d[k] = v` on an insertion-ordered dict: overwrite in place, else append -/
+def setHeader : Headers → List Char → List Char → Headers
+  | [], k, v => [(k, v)]
+  | (k', v') :: r, k, v => if k' = k then (k, v) :: r else (k', v') :: setHeader r k v
+
+/-- `d.get(k)` -/
+def lookupExact (hs : Headers) (k : List Char) : Option (List Char) := (hs.find? (fun p => p.1 == k)).map (·.2)
 
 /-- the entry a table row contributes, if its guards hold -/
 def rowEntry (cfg : Cfg) (r : Row) : Option (List Char × List Char) :=
   if r.conds.all (evalCond cfg) then some (r.header, evalVal cfg r.value) else none
 
+/-- one `if <guards>: capability_headers[<name>] = <value>` statement -/
+def addRow (cfg : Cfg) (acc : Headers) (r : Row) : Headers :=
+  match rowEntry cfg r with
+  | some kv => setHeader acc kv.1 kv.2
+  | none => acc
+
 /-- `capability_headers` as `make_wsgi_app` builds it -/
-def capHeaders (cfg : Cfg) : Headers :=
-  table.foldl (fun acc r => match rowEntry cfg r with
-    | some kv => setHeader acc kv.1 kv.2
-    | none => acc) []
+def capHeaders (cfg : Cfg) : Headers := table.foldl (addRow cfg) []
 
 /-! ### responses -/
 
@@ -79,8 +86,11 @@ def lower (s : List Char) : List Char := s.map asciiLower
 def getHdr (hs : Headers) (name : List Char) : Option (List Char) :=
   (hs.find? (fun p => lower p.1 == lower name)).map (·.2)
 
-/-- `resp.set_header(name, value)`: one value per (case-insensitive) name -/
+/-- `resp.set_header(name, value)`: Falcon keeps one value per name, keyed by the lower-cased name -/
 def respSet (hs : Headers) (k v : List Char) : Headers := setHeader hs (lower k) v
+
+/-- `resp.get_header(name)` / what goes on the wire under `name` -/
+def respGet (hs : Headers) (k : List Char) : Option (List Char) := lookupExact hs (lower k)
 
 /-- header mutations other middlewares' `process_response` hooks perform -/
 inductive Op where
@@ -94,7 +104,7 @@ def Op.name : Op → List Char
 
 def applyOp (hs : Headers) : Op → Headers
   | .set k v => respSet hs k v
-  | .append k v => match getHdr hs k with
+  | .append k v => match respGet hs k with
     | some old => respSet hs k (old ++ commaSpace ++ v)
     | none => respSet hs k v
   | .delete k => hs.filter (fun p => !(p.1 == lower k))
@@ -108,8 +118,8 @@ def stamp (cfg : Cfg) (verb : List Char) (hs : Headers) : Headers :=
   let s := (capHeaders cfg).foldl (fun acc kv => respSet acc kv.1 kv.2) hs
   if verb = verbOptions then respSet s cacheControl cacheValue else s
 
-/-- headers of any response: responder / error output (`base`, names already lower-cased by Falcon), the capability
-    stamp, then the hooks that run after it -/
+/-- headers of any response, as Falcon's `resp` holds them (keyed by lower-cased name): responder / error output
+    (`base`), the capability stamp, then the hooks that run after it -/
 def respond (cfg : Cfg) (verb : List Char) (base : Headers) (later : List Op) : Headers :=
   later.foldl applyOp (stamp cfg verb base)
 
